@@ -265,6 +265,8 @@ type pinterp struct {
 	callSeed         func(call *ssa.Call) (pval, bool) // value of a designated call (attribute getter)
 	onReject         func(fn *ssa.Function, iff *ssa.If, truth bool)
 	onPanic          func(fn *ssa.Function, in ssa.Instruction, what string)
+	strictIndex      bool       // every list of the walk is exact: a known index outside a known list is the panic it is at run time
+	contentType      types.Type // when set: the Go type of the named elements of tensors with content (for assertions on At() results)
 	onExt            func(fn *ssa.Function, call *ssa.Call, key string, operands []pval, h *pheap)
 	onLib            func(fn *ssa.Function, call *ssa.Call, callee *ssa.Function, args []pval, h *pheap)
 	onDyn            func(fn *ssa.Function, call *ssa.Call, args []pval, h *pheap) ([]pval, bool)     // call through a function value
@@ -285,6 +287,7 @@ type pinterp struct {
 	listReads        int
 	nextFree         []pval                                                                                             // values of the free variables of the closure about to be run
 	extModel         func(key string, call *ssa.Call, operands []pval, h *pheap) ([]pval, bool)                         // the client answers a gorgonia call
+	content          bool                                                                                               // element expressions: tensors carry a list of element terms, gorgonia's arithmetic combines them
 	cover            *pcover                                                                                            // when set: every block the walk enters is recorded (shared by the cells of one table)
 	intercept        func(fn *ssa.Function, call *ssa.Call, callee *ssa.Function, args []pval, h *pheap) ([]pval, bool) // the client answers a library call instead of the walk
 }
@@ -295,6 +298,7 @@ type pframe struct {
 	visits map[*ssa.BasicBlock]int
 	fields map[int]pval // receiver fields stored on this path (by field index)
 	heap   *pheap
+	dead   bool           // the path ended in a panic inside a call
 	forked *bool          // set when any branch below this call was taken on an unknown condition
 	syms   map[int64]bool // decisions taken on symbolic unknowns along this path
 }
@@ -723,8 +727,8 @@ outer:
 						break
 					}
 					if idx.i < 0 || idx.i >= int64(len(l)) {
-						if idx.dep {
-							p.panicAt(fn, x, "index out of range")
+						if idx.dep || p.strictIndex {
+							p.panicAt(fn, x, fmt.Sprintf("index out of range [%d] with length %d", idx.i, len(l)))
 						}
 						return
 					}
@@ -900,6 +904,22 @@ outer:
 				p.pass(fr, x, x.X, false)
 			case *ssa.TypeAssert:
 				if !x.CommaOk {
+					if v := p.val(fr, x.X); v.k == pList && p.listsAreSlicesOf != nil {
+						// a list standing for a slice of a known element type, asserted to another type: the panic of an
+						// unchecked assertion
+						if st, ok := x.AssertedType.Underlying().(*types.Slice); !ok || !types.Identical(st.Elem(), p.listsAreSlicesOf) {
+							if _, isIface := x.AssertedType.Underlying().(*types.Interface); !isIface {
+								p.panicAt(fn, x, "interface conversion: the value is a []"+p.listsAreSlicesOf.String()+", not "+x.AssertedType.String())
+								return
+							}
+						}
+					}
+					if v := p.val(fr, x.X); (v.k == pStr || v.k == pTok) && p.contentType != nil {
+						if _, isBasic := x.AssertedType.Underlying().(*types.Basic); isBasic && !types.Identical(x.AssertedType, p.contentType) {
+							p.panicAt(fn, x, "interface conversion: the element is a "+p.contentType.String()+", not "+x.AssertedType.String())
+							return
+						}
+					}
 					p.pass(fr, x, x.X, false)
 				} else {
 					delete(fr.env, x)
@@ -926,6 +946,17 @@ outer:
 					if v.k == pNil {
 						z, _ := zeroOf(x.AssertedType)
 						fr.tuples[x] = []pval{z, {k: pBool, b: false}}
+					}
+					if (v.k == pStr || v.k == pTok) && p.contentType != nil {
+						// a named element of a tensor with content, asserted to a basic type
+						if _, isBasic := x.AssertedType.Underlying().(*types.Basic); isBasic {
+							if types.Identical(x.AssertedType, p.contentType) {
+								fr.tuples[x] = []pval{v, {k: pBool, b: true}}
+							} else {
+								z, _ := zeroOf(x.AssertedType)
+								fr.tuples[x] = []pval{z, {k: pBool, b: false}}
+							}
+						}
 					}
 					if v.k == pList && p.listsAreSlicesOf != nil {
 						// a list standing for a slice of a known element type
@@ -996,6 +1027,9 @@ outer:
 				}
 			case *ssa.Call:
 				p.call(fn, fr, x, depth)
+				if fr.dead {
+					return
+				}
 			case *ssa.If:
 				cv := p.val(fr, x.Cond)
 				if cv.k == pBool {
@@ -1164,6 +1198,46 @@ func (p *pinterp) call(fn *ssa.Function, fr *pframe, x *ssa.Call, depth int) {
 	delete(fr.env, x)
 	delete(fr.tuples, x)
 	cc := x.Common()
+	if cc.IsInvoke() && p.content {
+		if it := p.val(fr, cc.Value); it.k == pObj {
+			if o := fr.heap.objs[it.i]; o != nil && o.fields[2].k == pStr && o.fields[2].s == "iterator" {
+				sh := fr.heap.lists[o.fields[0].i]
+				total := int64(1)
+				for _, e := range sh {
+					total *= e.i
+				}
+				pos := o.fields[1].i
+				switch cc.Method.Name() {
+				case "Reset":
+					o.fields[1] = pval{k: pInt, i: 0}
+				case "Done":
+					fr.env[x] = pval{k: pBool, b: pos >= total}
+				case "Coord":
+					co := make([]pval, len(sh))
+					rem := pos
+					for d := len(sh) - 1; d >= 0; d-- {
+						if sh[d].i > 0 {
+							co[d] = pval{k: pInt, i: rem % sh[d].i}
+							rem /= sh[d].i
+						}
+					}
+					fr.env[x] = fr.heap.alloc(co)
+				case "Next":
+					o.fields[1] = pval{k: pInt, i: pos + 1}
+					fr.tuples[x] = []pval{{k: pInt, i: pos + 1}, {k: pNil}}
+				case "Start":
+					o.fields[1] = pval{k: pInt, i: 0}
+					fr.tuples[x] = []pval{{k: pInt, i: 0}, {k: pNil}}
+				}
+				return
+			}
+		}
+	}
+	if cc.IsInvoke() && p.objects && p.val(fr, cc.Value).k == pNil {
+		p.panicAt(fn, x, "method "+cc.Method.Name()+" called on a nil interface value")
+		fr.dead = true
+		return
+	}
 	if p.callSeed != nil {
 		if v, ok := p.callSeed(x); ok {
 			fr.env[x] = v
@@ -1413,6 +1487,81 @@ func (p *pinterp) call(fn *ssa.Function, fr *pframe, x *ssa.Call, depth int) {
 				if l := fr.heap.lists[rv.j]; l != nil {
 					fr.env[x] = pval{k: pBool, b: len(l) == 0}
 				}
+			case "Zero":
+				if p.content && rv.m != 0 {
+					if l := fr.heap.lists[rv.m]; l != nil {
+						for k := range l {
+							fr.heap.storeElem(rv.m, int64(k), pval{k: pStr, s: "0"})
+						}
+					}
+				}
+			case "ScalarValue":
+				if p.content && rv.m != 0 {
+					if l := fr.heap.lists[rv.m]; len(l) == 1 {
+						fr.env[x] = l[0]
+					}
+				}
+			case "At", "SetAt":
+				if p.content && rv.m != 0 {
+					sh, cont := fr.heap.lists[rv.j], fr.heap.lists[rv.m]
+					var coords []pval
+					ci := len(cc.Args) - 1
+					switch cv := p.val(fr, cc.Args[ci]); cv.k {
+					case pList:
+						coords = fr.heap.lists[cv.i]
+					case pNil:
+						coords = []pval{}
+					}
+					if sh == nil || cont == nil || coords == nil || len(coords) != len(sh) {
+						if name == "SetAt" && cont != nil {
+							fr.heap.forget(rv.m)
+						}
+						break
+					}
+					flat, okc := int64(0), true
+					for d := range sh {
+						if sh[d].k != pInt || coords[d].k != pInt {
+							okc = false
+							break
+						}
+						if coords[d].i < 0 || coords[d].i >= sh[d].i {
+							// gorgonia refuses coordinates outside the shape
+							if name == "At" {
+								fr.tuples[x] = []pval{{}, {k: pNonNil}}
+							} else {
+								fr.env[x] = pval{k: pNonNil}
+							}
+							return
+						}
+						flat = flat*sh[d].i + coords[d].i
+					}
+					if !okc || flat >= int64(len(cont)) {
+						if name == "SetAt" {
+							fr.heap.forget(rv.m)
+						}
+						break
+					}
+					if name == "At" {
+						fr.tuples[x] = []pval{cont[flat], {k: pNil}}
+					} else {
+						v := p.val(fr, cc.Args[ci-1])
+						if v.k == pUnknown {
+							v = pval{k: pPoison}
+						}
+						fr.heap.storeElem(rv.m, flat, v)
+						fr.env[x] = pval{k: pNil}
+					}
+				}
+			case "Iterator":
+				if p.content {
+					if sh := fr.heap.lists[rv.j]; sh != nil {
+						o := fr.heap.newObj()
+						fr.heap.objs[o.i].fields[0] = fr.heap.alloc(append([]pval{}, sh...))
+						fr.heap.objs[o.i].fields[1] = pval{k: pInt, i: 0}
+						fr.heap.objs[o.i].fields[2] = pval{k: pStr, s: "iterator"}
+						fr.env[x] = o
+					}
+				}
 			case "Materialize":
 				fr.env[x] = rv // the same elements in a tensor of their own: shape and content as they are
 			case "Slice":
@@ -1592,9 +1741,25 @@ func (p *pinterp) call(fn *ssa.Function, fr *pframe, x *ssa.Call, depth int) {
 			args[i] = p.val(fr, a)
 		}
 		if fv := p.val(fr, cc.Value); !cc.IsInvoke() && fv.k == pFunc && fv.fn != nil {
+			if fnPkgPath(fv.fn) == "math" && fv.fn.Signature.Recv() == nil {
+				if v, ok := mathOnTokens(fv.fn, func(i int) pval { return args[i] }, len(args)); ok {
+					fr.env[x] = v
+					return
+				}
+			}
 			if fnPkgPath(fv.fn) == pkgTensor && fv.fn.Signature.Recv() == nil && p.onExt != nil {
 				// a gorgonia function reached through a function value: the client sees it like a direct call
 				p.onExt(fn, x, pkgTensor+"."+fv.fn.Name(), args, fr.heap)
+			}
+			if fnPkgPath(fv.fn) == pkgTensor && fv.fn.Signature.Recv() == nil && p.extModel != nil {
+				if res, ok := p.extModel(pkgTensor+"."+fv.fn.Name(), x, args, fr.heap); ok {
+					if len(res) == 1 {
+						fr.env[x] = res[0]
+					} else if len(res) > 1 {
+						fr.tuples[x] = res
+					}
+					return
+				}
 			}
 			if fnPkgPath(fv.fn) == pkgTensor && isReductionName(strings.TrimSuffix(fv.fn.Name(), "$thunk")) {
 				if res, ok := p.reduction(fn, x, strings.TrimSuffix(fv.fn.Name(), "$thunk"), fr, args); ok {
@@ -1889,6 +2054,97 @@ func (p *pinterp) call(fn *ssa.Function, fr *pframe, x *ssa.Call, depth int) {
 			return
 		}
 	}
+	if fnPkgPath(sc) == "bytes" && p.objects {
+		switch {
+		case sc.Name() == "NewReader" && len(cc.Args) == 1:
+			if d := p.val(fr, cc.Args[0]); d.k == pList || d.k == pNil {
+				o := fr.heap.newObj()
+				fr.heap.objs[o.i].fields[0] = d
+				fr.heap.objs[o.i].fields[1] = pval{k: pInt, i: 0}
+				fr.heap.objs[o.i].fields[2] = pval{k: pStr, s: "bytes.Reader"}
+				fr.env[x] = o
+			}
+			return
+		case sc.Name() == "Read" && sc.Signature.Recv() != nil && len(cc.Args) == 2:
+			rd, buf := p.val(fr, cc.Args[0]), p.val(fr, cc.Args[1])
+			o := fr.heap.objs[rd.i]
+			if rd.k != pObj || o == nil || o.fields[2].s != "bytes.Reader" || buf.k != pList || fr.heap.lists[buf.i] == nil {
+				p.havoc(fr, []pval{buf})
+				return
+			}
+			var data []pval
+			if o.fields[0].k == pList {
+				data = fr.heap.lists[o.fields[0].i]
+				if data == nil {
+					p.havoc(fr, []pval{buf})
+					return
+				}
+			}
+			pos := o.fields[1].i
+			bl := fr.heap.lists[buf.i]
+			if len(bl) == 0 {
+				fr.tuples[x] = []pval{{k: pInt, i: 0}, {k: pNil}}
+				return
+			}
+			if pos >= int64(len(data)) {
+				fr.tuples[x] = []pval{{k: pInt, i: 0}, {k: pAbs, i: 77001, s: "io.EOF"}}
+				return
+			}
+			n := int64(len(bl))
+			if rem := int64(len(data)) - pos; rem < n {
+				n = rem
+			}
+			for k := int64(0); k < n; k++ {
+				fr.heap.storeElem(buf.i, k, data[pos+k])
+			}
+			o.fields[1] = pval{k: pInt, i: pos + n}
+			fr.tuples[x] = []pval{{k: pInt, i: n}, {k: pNil}}
+			return
+		}
+	}
+	if fnPkgPath(sc) == "encoding/binary" && p.objects && strings.HasPrefix(sc.Name(), "Uint") && sc.Signature.Recv() != nil && len(cc.Args) == 2 {
+		// (littleEndian / bigEndian).UintNN(b): needs NN/8 bytes (panics otherwise); the value is named after the
+		// bytes it is made of
+		need := map[string]int64{"Uint16": 2, "Uint32": 4, "Uint64": 8}[sc.Name()]
+		buf := p.val(fr, cc.Args[1])
+		order := "le"
+		if rn := recvNamed(sc); rn != nil && strings.HasPrefix(rn.Obj().Name(), "big") {
+			order = "be"
+		}
+		if buf.k == pList && fr.heap.lists[buf.i] != nil && need > 0 {
+			bl := fr.heap.lists[buf.i]
+			if int64(len(bl)) < need {
+				p.panicAt(fn, x, fmt.Sprintf("binary.%s on a buffer of %d bytes", sc.Name(), len(bl)))
+				fr.env[x] = pval{k: pPoison}
+				return
+			}
+			okTok := true
+			for k := int64(0); k < need; k++ {
+				if bl[k].k != pTok || bl[k].s != "byte" || bl[k].i != bl[0].i+k {
+					okTok = false
+				}
+			}
+			if okTok {
+				fr.env[x] = pval{k: pTok, i: bl[0].i, s: fmt.Sprintf("%s%d", order, need*8)}
+			} else if bl[0].k == pTok {
+				fr.env[x] = pval{k: pTok, i: bl[0].i, s: fmt.Sprintf("%s%d:scrambled", order, need*8)}
+			}
+		}
+		return
+	}
+	if fnPkgPath(sc) == "math" && sc.Signature.Recv() == nil && len(cc.Args) >= 1 && !strings.HasSuffix(sc.Name(), "frombits") {
+		// a function of package math on element tokens: the token remembers it (operands in order)
+		if v, ok := mathOnTokens(sc, func(i int) pval { return p.val(fr, cc.Args[i]) }, len(cc.Args)); ok {
+			fr.env[x] = v
+			return
+		}
+	}
+	if fnPkgPath(sc) == "math" && (sc.Name() == "Float32frombits" || sc.Name() == "Float64frombits") && len(cc.Args) == 1 {
+		if v := p.val(fr, cc.Args[0]); v.k == pTok {
+			fr.env[x] = pval{k: pTok, i: v.i, s: v.s + "|bits"}
+		}
+		return
+	}
 	if fnPkgPath(sc) == "reflect" {
 		switch sc.Name() {
 		case "ValueOf":
@@ -1920,6 +2176,12 @@ func (p *pinterp) call(fn *ssa.Function, fr *pframe, x *ssa.Call, depth int) {
 		switch sc.Name() {
 		case "Concat":
 			// Concat(axis, t, ts...) refuses an axis outside [0, rank) (dense_matop.go: "Axis is out of bounds")
+			if p.content && len(cc.Args) == 3 {
+				if res, ok := p.concatContent(fr, p.val(fr, cc.Args[0]), p.val(fr, cc.Args[1]), p.val(fr, cc.Args[2])); ok {
+					fr.tuples[x] = res
+					return
+				}
+			}
 			if len(cc.Args) >= 2 {
 				ax, t := p.val(fr, cc.Args[0]), p.val(fr, cc.Args[1])
 				rank, okr := int64(0), false
@@ -1952,6 +2214,12 @@ func (p *pinterp) call(fn *ssa.Function, fr *pframe, x *ssa.Call, depth int) {
 					}
 				case pInt:
 					n = r
+				}
+				if t.k == pTensor {
+					// an input as it came: the same with a header of known shape (Repeat returns a new tensor anyway)
+					if l, ok := p.shapeList(t.i); ok {
+						t = pval{k: pShaped, i: t.i, j: fr.heap.alloc(l).i}
+					}
 				}
 				if t.k == pShaped && ax.k == pInt && n.k == pInt {
 					if l := fr.heap.lists[t.j]; l != nil && ax.i >= 0 && ax.i < int64(len(l)) && l[ax.i].k == pInt {
@@ -1997,6 +2265,100 @@ func (p *pinterp) call(fn *ssa.Function, fr *pframe, x *ssa.Call, depth int) {
 							}
 							fr.tuples[x] = []pval{nv, {k: pNil}}
 						}
+					}
+				}
+			}
+		case "NewDense":
+			if p.content && len(cc.Args) >= 2 {
+				if sv := p.val(fr, cc.Args[1]); sv.k == pList && fr.heap.lists[sv.i] != nil {
+					shl := fr.heap.lists[sv.i]
+					total, okS := int64(1), true
+					for _, e := range shl {
+						if e.k != pInt || e.i < 0 {
+							okS = false
+						}
+						total *= e.i
+					}
+					if okS && total <= 4096 {
+						cont := make([]pval, total)
+						for k := range cont {
+							cont[k] = pval{k: pStr, s: "0"}
+						}
+						fr.env[x] = pval{k: pShaped, i: 900, j: fr.heap.alloc(append([]pval{}, shl...)).i, m: fr.heap.alloc(cont).i}
+					}
+					if !okS && total < 0 {
+						allInt := true
+						for _, e := range shl {
+							if e.k != pInt {
+								allInt = false
+							}
+						}
+						if allInt {
+							// gorgonia allocates make([]byte, size*total): a negative length panics (array.go, malloc)
+							p.panicAt(fn, x, "NewDense with a negative extent (makeslice: len out of range)")
+							fr.dead = true
+						}
+					}
+				}
+			}
+		case "Mul", "Add", "Sub":
+			if p.content && len(cc.Args) >= 2 {
+				a, b := p.val(fr, cc.Args[0]), p.val(fr, cc.Args[1])
+				plain := true // no WithReuse / UseUnsafe / WithIncr
+				if len(cc.Args) >= 3 {
+					o := p.val(fr, cc.Args[2])
+					plain = o.k == pNil || o.k == pList && len(fr.heap.lists[o.i]) == 0
+				}
+				if plain && a.k == pShaped && b.k == pShaped && a.m != 0 && b.m != 0 {
+					ca, cb := fr.heap.lists[a.m], fr.heap.lists[b.m]
+					sa, sb := fr.heap.lists[a.j], fr.heap.lists[b.j]
+					if ca != nil && cb != nil && sa != nil && sb != nil && len(ca) == len(cb) && sameInts(sa, sb) {
+						out := make([]pval, len(ca))
+						for k := range ca {
+							out[k] = combineElems(sc.Name(), ca[k], cb[k])
+						}
+						fr.tuples[x] = []pval{{k: pShaped, i: a.i, j: fr.heap.alloc(append([]pval{}, sa...)).i, m: fr.heap.alloc(out).i}, {k: pNil}}
+					} else if sa != nil && sb != nil && !sameInts(sa, sb) {
+						fr.tuples[x] = []pval{{k: pNil}, {k: pNonNil}} // gorgonia refuses operands of different shapes
+					}
+				}
+			}
+		case "Sum":
+			if p.content && len(cc.Args) >= 1 {
+				a := p.val(fr, cc.Args[0])
+				noAxes := len(cc.Args) == 1 || p.val(fr, cc.Args[len(cc.Args)-1]).k == pNil
+				if a.k == pShaped && a.m != 0 && noAxes {
+					if ca := fr.heap.lists[a.m]; ca != nil {
+						acc := pval{k: pStr, s: "0"}
+						for _, e := range ca {
+							acc = combineElems("Add", acc, e)
+						}
+						fr.tuples[x] = []pval{{k: pShaped, i: a.i, j: fr.heap.alloc([]pval{}).i, m: fr.heap.alloc([]pval{acc}).i}, {k: pNil}}
+					}
+				}
+			}
+		case "MatMul":
+			// the shape contract for two matrices: (m,k) x (k,n) -> (m,n), other inner extents are refused; with a
+			// reuse option the result is written into the given tensor (shape effect only)
+			if len(cc.Args) >= 2 {
+				shp := func(v pval) ([]pval, bool) {
+					switch v.k {
+					case pShaped:
+						l := fr.heap.lists[v.j]
+						return l, l != nil
+					case pTensor:
+						return p.shapeList(v.i)
+					}
+					return nil, false
+				}
+				a, okA := shp(p.val(fr, cc.Args[0]))
+				b, okB := shp(p.val(fr, cc.Args[1]))
+				if okA && okB && len(a) == 2 && len(b) == 2 && a[1].k == pInt && b[0].k == pInt && a[0].k == pInt && b[1].k == pInt {
+					if a[1].i != b[0].i {
+						fr.tuples[x] = []pval{{k: pNil}, {k: pNonNil}}
+					} else {
+						src := p.val(fr, cc.Args[0])
+						fr.tuples[x] = []pval{{k: pShaped, i: src.i, j: fr.heap.alloc([]pval{a[0], b[1]}).i}, {k: pNil}}
 					}
 				}
 			}
@@ -2335,6 +2697,9 @@ func (p *pinterp) globalValue(g *ssa.Global) (pval, bool) {
 		return pval{}, false
 	}
 	path := g.Pkg.Pkg.Path()
+	if path == "io" && g.Name() == "EOF" {
+		return pval{k: pAbs, i: 77001, s: "io.EOF"}, true
+	}
 	if p.c.isSentinelGlobal(g) {
 		return pval{k: pNonNil}, true // a package-level error value made by errors.New
 	}
@@ -2541,6 +2906,7 @@ type pcover struct {
 	fns    map[*ssa.Function]bool
 	roots  map[*ssa.Function]bool // the functions the table is about (concerned even when exported)
 	skip   map[*ssa.Function]bool // walked, but judged by other rules (an operator's Init under a table about Apply)
+	pkgs   map[string]bool        // when set: only functions of these packages are concerned
 }
 
 func newCover(roots ...*ssa.Function) *pcover {
@@ -2579,6 +2945,9 @@ func (pc *pcover) uncovered(c *Ctx) []string {
 		}
 		exported := fn.Object() != nil && fn.Object().Exported() && fn.Signature.Recv() == nil && fn.Parent() == nil
 		if (exported && !pc.roots[fn]) || pc.skip[fn] {
+			continue
+		}
+		if pc.pkgs != nil && !pc.pkgs[fnPkgPath(fn)] {
 			continue
 		}
 		concerned[fn] = true
@@ -2655,4 +3024,166 @@ func (c *Ctx) errorPassingBlock(b *ssa.BasicBlock) bool {
 		}
 	}
 	return false
+}
+
+func sameInts(a, b []pval) bool {
+	if len(a) != len(b) {
+		return false
+	}
+	for i := range a {
+		if a[i].k != pInt || b[i].k != pInt || a[i].i != b[i].i {
+			return false
+		}
+	}
+	return true
+}
+
+// combineElems: element expressions are sums of products of leaf names, kept sorted ("w1*x3+w2*x4"); "0" is zero.
+func combineElems(op string, a, b pval) pval {
+	if a.k != pStr || b.k != pStr {
+		return pval{k: pPoison}
+	}
+	terms := func(s string) []string {
+		if s == "0" || s == "" {
+			return nil
+		}
+		return strings.Split(s, "+")
+	}
+	join := func(t []string) pval {
+		if len(t) == 0 {
+			return pval{k: pStr, s: "0"}
+		}
+		sort.Strings(t)
+		return pval{k: pStr, s: strings.Join(t, "+")}
+	}
+	switch op {
+	case "Add":
+		return join(append(append([]string{}, terms(a.s)...), terms(b.s)...))
+	case "Sub":
+		var t []string
+		t = append(t, terms(a.s)...)
+		for _, x := range terms(b.s) {
+			t = append(t, "-"+x)
+		}
+		return join(t)
+	case "Mul":
+		var t []string
+		for _, x := range terms(a.s) {
+			for _, y := range terms(b.s) {
+				f := append(strings.Split(x, "*"), strings.Split(y, "*")...)
+				sort.Strings(f)
+				t = append(t, strings.Join(f, "*"))
+			}
+		}
+		return join(t)
+	}
+	return pval{k: pPoison}
+}
+
+// concatContent: tensor.Concat(axis, t, ts...) for tensors with known shape and content: shapes agree off the axis.
+func (p *pinterp) concatContent(fr *pframe, ax, first, rest pval) ([]pval, bool) {
+	if ax.k != pInt || first.k != pShaped || first.m == 0 {
+		return nil, false
+	}
+	ts := []pval{first}
+	switch rest.k {
+	case pList:
+		l := fr.heap.lists[rest.i]
+		if l == nil {
+			return nil, false
+		}
+		ts = append(ts, l...)
+	case pNil:
+	default:
+		return nil, false
+	}
+	type tinfo struct {
+		shape []int64
+		cont  []pval
+	}
+	var infos []tinfo
+	for _, t := range ts {
+		if t.k != pShaped || t.m == 0 {
+			return nil, false
+		}
+		shl, cont := fr.heap.lists[t.j], fr.heap.lists[t.m]
+		if shl == nil || cont == nil {
+			return nil, false
+		}
+		sh := make([]int64, len(shl))
+		for i, e := range shl {
+			if e.k != pInt {
+				return nil, false
+			}
+			sh[i] = e.i
+		}
+		infos = append(infos, tinfo{sh, cont})
+	}
+	rank := len(infos[0].shape)
+	if ax.i < 0 || ax.i >= int64(rank) {
+		return nil, false // the axis refusals are modelled by the caller
+	}
+	outShape := append([]int64{}, infos[0].shape...)
+	for _, in := range infos[1:] {
+		if len(in.shape) != rank {
+			return []pval{{k: pNil}, {k: pNonNil}}, true
+		}
+		for d := range in.shape {
+			if int64(d) != ax.i && in.shape[d] != outShape[d] {
+				return []pval{{k: pNil}, {k: pNonNil}}, true
+			}
+		}
+		outShape[ax.i] += in.shape[ax.i]
+	}
+	outer, inner := int64(1), int64(1)
+	for d := 0; d < int(ax.i); d++ {
+		outer *= outShape[d]
+	}
+	for d := int(ax.i) + 1; d < rank; d++ {
+		inner *= outShape[d]
+	}
+	var cont []pval
+	for o := int64(0); o < outer; o++ {
+		for _, in := range infos {
+			n := in.shape[ax.i] * inner
+			if int64(len(in.cont)) < (o+1)*n {
+				return nil, false
+			}
+			cont = append(cont, in.cont[o*n:(o+1)*n]...)
+		}
+	}
+	if cont == nil {
+		cont = []pval{}
+	}
+	shl := make([]pval, rank)
+	for i, e := range outShape {
+		shl[i] = pval{k: pInt, i: e}
+	}
+	return []pval{{k: pShaped, i: first.i, j: fr.heap.alloc(shl).i, m: fr.heap.alloc(cont).i}, {k: pNil}}, true
+}
+
+// mathOnTokens: math.F(token[, ...]) is the token with F appended to its trail; further operands (tokens or
+// constants) are part of the name.
+func mathOnTokens(f *ssa.Function, arg func(i int) pval, n int) (pval, bool) {
+	if n == 0 || f.Signature.Results().Len() != 1 {
+		return pval{}, false
+	}
+	a0 := arg(0)
+	if a0.k != pTok {
+		return pval{}, false
+	}
+	name := "math." + f.Name()
+	for i := 1; i < n; i++ {
+		switch a := arg(i); a.k {
+		case pTok:
+			name += fmt.Sprintf("(,tok%d%s)", a.i, a.s)
+		case pInt:
+			name += fmt.Sprintf("(,%d)", a.i)
+		case pFloat:
+			name += "(," + a.s + ")"
+		default:
+			return pval{}, false
+		}
+	}
+	return pval{k: pTok, i: a0.i, s: a0.s + "|" + name}, true
 }
